@@ -2,7 +2,7 @@
 """Mechanical mutation sweep: how many single-token / single-statement changes to the code a
 property is anchored in does its check notice?
 
-usage: mutsweep.py Cxx [--n 20] [--seed 1] [--files f1.go,f2.go] [--more | --recheck]
+usage: mutsweep.py Cxx [--n 20] [--seed 1] [--files f1.go,f2.go] [--more | --recheck] [--anchors]
        --more    : add n further mutants to an existing mutation/Cxx.jsonl
        --recheck : re-run only the mutants recorded as silent (after strengthening a check)
 
@@ -100,6 +100,33 @@ def covered_lines(pid):
     return cov
 
 
+def anchor_sites(pid, files):
+    rng, fnames = [], []
+    for l in open(os.path.join(VERIF, "properties.jsonl")):
+        p = json.loads(l)
+        if p["id"] != pid:
+            continue
+        a = p["anchors"]
+        allf = [f for f in a["files"] if f.endswith(".go")]
+        for w in [x.get("where", "") for x in a.get("state", []) + a.get("mechanism", [])]:
+            cur = None
+            for seg in re.split(r"[;,]\s+(?=[A-Za-z/_.-]+\.go)|;", w):
+                m = re.search(r"([A-Za-z0-9/_.-]+\.go)", seg)
+                if m:
+                    cand = [f for f in allf if f.endswith(m.group(1))]
+                    cur = cand[0] if cand else None
+                if not cur:
+                    continue
+                for a1, b1 in re.findall(r"(\d+)-(\d+)", seg):
+                    rng.append((cur, int(a1), int(b1)))
+                for a1 in re.findall(r":(\d+)(?![\d-])", seg):
+                    rng.append((cur, int(a1), int(a1)))
+                for n in re.findall(r"\b([A-Za-z_][A-Za-z0-9_]*(?:\.[A-Za-z_][A-Za-z0-9_]*)?)\b(?=[:,/ ]|$)", seg):
+                    if not n.endswith(".go") and n not in ("vs", "and", "in", "set", "struct", "calls", "storage", "go"):
+                        fnames.append((cur, n.split(".")[-1]))
+    return rng, fnames
+
+
 def main():
     pid = sys.argv[1]
     n = int(sys.argv[sys.argv.index("--n") + 1]) if "--n" in sys.argv else 20
@@ -128,6 +155,18 @@ def main():
                 and "verif" not in srcl[m["line"] - 1]]
         stats[f] = {"mutants": len(ms), "on_executed_lines": len(keep)}
         pool += keep
+    if "--anchors" in sys.argv:
+        # keep only mutants inside the line ranges / functions the property's anchors name
+        # (state[].where, mechanism[].where; ranges widened by 12 lines: fixes shifted the code a little)
+        rng, fnames = anchor_sites(pid, files)
+        def inside(m):
+            for (f, a, b) in rng:
+                if m["file"] == f and a - 12 <= m["line"] <= b + 12:
+                    return True
+            return any(m["func"] == n or m["func"].endswith("." + n) for (f, n) in fnames)
+        before = len(pool)
+        pool = [m for m in pool if inside(m)]
+        print(f"[{pid}] --anchors: {len(pool)} of {before} executed-line mutants lie in anchored ranges/functions", flush=True)
     rnd = random.Random(seed * 7919 + int(pid[1:]))
     rnd.shuffle(pool)
     outp = os.path.join(VERIF, "mutation", f"{pid}.jsonl")
